@@ -37,7 +37,7 @@ type c19Scenario struct {
 	Jobs  int    `json:"jobs"`  // jobs per submitter
 	Dur   int    `json:"dur"`   // 0 none, 1 Gosched, 2 50us, 3 2ms, 4 mixed
 	Procs int    `json:"procs"` // GOMAXPROCS of the child
-	Mode  string `json:"mode"`  // drain | race | saturated | idle | tcp-drain | tcp-saturated | udp-drain | udp-saturated (pool inside a real transport.TarsServer)
+	Mode  string `json:"mode"`  // drain | race | saturated | idle | tcp-drain | tcp-saturated | tcp-shutdown | udp-drain | udp-saturated (pool inside a real transport.TarsServer)
 	Seed  int64  `json:"seed"`
 }
 
@@ -540,6 +540,10 @@ func c19Gen(tier string, rng *rand.Rand) []c19Case {
 		case "udp-drain", "udp-saturated":
 			sc.Subs = 1 + rng.Intn(3)
 			sc.Jobs = (20+rng.Intn(40))/sc.Subs + 1
+		case "tcp-shutdown":
+			sc.Subs = 1 + rng.Intn(3) // connections with queued requests (besides the one that occupies the workers)
+			sc.Jobs = 5 + rng.Intn(8)
+			sc.Dur = rng.Intn(3)
 		case "tcp-drain", "tcp-saturated":
 			sc.Subs = 1 + rng.Intn(4)
 			sc.Jobs = (30+rng.Intn(60))/sc.Subs + 1
@@ -587,6 +591,15 @@ func c19Gen(tier string, rng *rand.Rand) []c19Case {
 			for _, m := range []string{"drain", "race"} {
 				cs = append(cs, c19Case{Sc: c19Scenario{W: b[0], Q: b[1], Subs: b[2], Jobs: b[3], Dur: []int{0, 1, 4}[rng.Intn(3)], Procs: procs[rng.Intn(3)], Mode: m, Seed: rng.Int63()}})
 			}
+		}
+	}
+	// graceful shutdown of a loaded TCP server: requests of other connections wait in the pool while Shutdown is called
+	for _, w := range []int{1, 2} {
+		cs = append(cs, mk(w, 0, "tcp-shutdown"), mk(w, 0, "tcp-shutdown"))
+	}
+	if tier == "thorough" {
+		for i := 0; i < 12; i++ {
+			cs = append(cs, mk([]int{1, 1, 2, 4}[i%4], 0, "tcp-shutdown"))
 		}
 	}
 	// the pool behind the UDP handler: MaxInvoke in {1,2,4}, small queues, bursts larger than W+1+Q
